@@ -85,7 +85,7 @@ type spCfg struct {
 }
 
 type spOp struct {
-	K string `json:"k"` // pod_add pod_del use_pod use_host use_sys slo kubelet reserve sysqos restart informer be_dir round
+	K string `json:"k"` // pod_add pod_del use_pod use_host use_sys use_fit slo kubelet reserve sysqos restart informer be_dir round
 
 	Pod     int    `json:"pod,omitempty"`
 	QoS     string `json:"qos,omitempty"`
@@ -206,8 +206,11 @@ func spGenReserve(g *sim.Rng, ids []int, usage func(int64) int64) spReserve {
 	case x < 45:
 	case x < 75:
 		k := 1 + g.Intn(len(ids))
-		if g.Bool(0.7) && k > 2 {
+		if g.Bool(0.85) && k > 2 {
 			k = 1 + g.Intn(2)
+		}
+		if k >= len(ids) && g.Bool(0.8) {
+			k = len(ids) - 1
 		}
 		rv.CPUs = spPickCPUs(g, ids, k)
 		if g.Bool(0.2) {
@@ -231,8 +234,11 @@ func spGenSysQoS(g *sim.Rng, ids []int) spSysQoS {
 	case x < 55:
 	case x < 80:
 		k := 1 + g.Intn(len(ids))
-		if g.Bool(0.7) && k > 2 {
+		if g.Bool(0.85) && k > 2 {
 			k = 1 + g.Intn(2)
+		}
+		if k >= len(ids) && g.Bool(0.8) {
+			k = len(ids) - 1
 		}
 		sq.CPUs = spPickCPUs(g, ids, k)
 		sq.Excl = g.PickInt(0, 1)
@@ -328,7 +334,7 @@ func (spEngine) Generate(p *sim.Plan, g *sim.Rng) {
 	excl := map[int]bool{}   // owned by an LSE/LSR pod
 	shared := map[int]bool{} // annotated by an LS/BE pod
 	var pods []*spGenPod
-	protectAll := g.Bool(0.2)
+	protectAll := g.Bool(0.08)
 	freeCPUs := func() []int {
 		var f []int
 		for _, id := range ids {
@@ -364,8 +370,14 @@ func (spEngine) Generate(p *sim.Plan, g *sim.Rng) {
 			if k > 4 && g.Bool(0.6) {
 				k = 1 + g.Intn(4)
 			}
-			if g.Bool(0.15) || (protectAll && op.QoS == "LSE" && g.Bool(0.6)) {
+			if g.Bool(0.05) || (protectAll && op.QoS == "LSE" && g.Bool(0.6)) {
 				k = len(free)
+			} else if k == len(free) {
+				k-- // taking the last free CPU is left to the draws above
+			}
+			if k == 0 {
+				op.QoS, op.Kube = "LS", "Burstable"
+				break
 			}
 			op.CPUs = spPickCPUs(g, free, k)
 			for _, c := range op.CPUs {
@@ -448,8 +460,17 @@ func (spEngine) Generate(p *sim.Plan, g *sim.Rng) {
 				return
 			}
 			ops = append(ops, spOp{K: "use_host", Host: g.Intn(len(cfg.HostApps)), Use: usage(int64(n) * 200)})
-		case x < 72:
+		case x < 68:
 			ops = append(ops, spOp{K: "use_sys", Use: usage(int64(n) * 400)})
+		case x < 72:
+			// the system usage moves to where the budget lands on a boundary (0, the 2-CPU minimum, whole CPUs, 1% of the node)
+			w := g.PickI64(0, 125, 250, 1000, 1875, 2000, 2125, 3000, 3125, 4000, int64(n)*5, int64(n)*1000)
+			if !cfg.Exact {
+				w += g.PickI64(0, 0, 1, -1, 30, 499)
+			} else {
+				w -= w % 125
+			}
+			ops = append(ops, spOp{K: "use_fit", Use: w})
 		case x < 81:
 			s := spGenSLO(g)
 			ops = append(ops, spOp{K: "slo", Slo: &s})
